@@ -159,6 +159,8 @@ func driveUpdates(c *hx.Ctx) error {
 	sh := c.NewShard("updates", imports, "upd_case", "corr_update", "holds_update", 500)
 	ss := c.NewShard("schedules", imports, "sched_case", "corr_sched", "holds_sched", 50)
 	r := c.Rand("updates")
+	c.Stats.Rule = "updates: per round a fresh Adaptation with 2-6 real stubs, each issuing update lists of 1-5 entries from its own goroutine while three goroutines fire random runtime requests (handlers take 150 us, the call-back 100 us); the call-back answers per script: nothing, a failed sub-list, or an error (with or without a list); every call is one case (content, once, result); the merged begin/end marks of all call-backs and handlers are the schedule cases; un-started stubs: UpdateContainers must return ErrNoService at once; slow: with a plugin request time-out of 400 ms, a call-back that takes 1.2 s, updates of other plugins queued behind it, and updates queued behind a runtime request that holds the adaptation lock for 600 ms — the plugin must get exactly the call-back's failed list or error."
+	caseNo := 0
 
 	// --- committed boundary cases, one call at a time on an otherwise idle Adaptation
 	if files := corpusFiles("C19"); len(files) > 0 {
@@ -168,11 +170,11 @@ func driveUpdates(c *hx.Ctx) error {
 		}
 		p := newPlug(e, "42", "corpus", api.ValidEvents)
 		if err := p.startStub(e.sock); err != nil {
-			e.close()
+			e.closeWithin(5 * time.Second)
 			return err
 		}
 		if err := e.waitSynced(10*time.Second, p); err != nil {
-			e.close()
+			e.closeWithin(5 * time.Second)
 			return err
 		}
 		k := 0
@@ -205,13 +207,22 @@ func driveUpdates(c *hx.Ctx) error {
 					}
 					return fromItems(u.CbFailed), nil
 				})
-				failed, uerr := p.st.UpdateContainers(fromItems(u.Updates))
-				mu.Lock()
-				u.RetFailed = toItems(failed)
-				if uerr != nil {
-					u.RetErr = uerr.Error()
+				var cw sync.WaitGroup
+				cw.Add(1)
+				go func() {
+					defer cw.Done()
+					failed, uerr := p.st.UpdateContainers(fromItems(u.Updates))
+					mu.Lock()
+					u.RetFailed = toItems(failed)
+					if uerr != nil {
+						u.RetErr = uerr.Error()
+					}
+					mu.Unlock()
+				}()
+				if !groupWithin(&cw, wedgeWait) {
+					c.ImplFail("updates", fmt.Sprintf("UpdateContainers on an idle runtime had not returned after %v", wedgeWait), map[string]interface{}{"stream": "updates", "plugin": u.Plugin, "n": u.N})
+					return nil
 				}
-				mu.Unlock()
 				sh.Add(updCaseTerm(u), u)
 				if why := updOracle(u); why != "" {
 					c.ImplFail("updates", why, u)
@@ -222,7 +233,7 @@ func driveUpdates(c *hx.Ctx) error {
 		}
 		e.setUpdateFn(nil)
 		p.stop()
-		e.close()
+		e.closeWithin(5 * time.Second)
 	}
 
 	// --- updates issued from within the Configure handler: the plugin is registered, Stub.Start has not
@@ -276,13 +287,164 @@ func driveUpdates(c *hx.Ctx) error {
 			go p.stop()
 		}
 		e.setUpdateFn(nil)
-		e.close()
+		e.closeWithin(5 * time.Second)
+	}
+
+	// --- updates that stay in the runtime for longer than the plugin request time-out: a call-back that
+	// takes three times the time-out, updates queued behind that call-back, and updates queued behind a
+	// runtime request in flight.  The time-out (pushed to the stubs in Configure) bounds the runtime's
+	// calls to plugins, not a plugin's update: the call-back's result must reach the plugin all the same.
+	{
+		const slowT = 400 * time.Millisecond
+		adaptation.SetPluginRequestTimeout(slowT)
+		rs := c.Rand("updates/slow")
+		pod, unpod := api.EventMask(1)<<(uint(api.Event_RUN_POD_SANDBOX)-1), api.EventMask(1)<<(uint(api.Event_REMOVE_POD_SANDBOX)-1)
+		longWaits := 0
+		for sc := 0; sc < c.Pick(2, 6); sc++ {
+			e, err := newEnv(c.Out)
+			if err != nil {
+				return err
+			}
+			// updaters never see the slow request (other subscription), so no time-out can hit them
+			var ups, sleepers []*plug
+			for i := 0; i < 3; i++ {
+				ups = append(ups, newPlug(e, fmt.Sprintf("%02d", 70+i), fmt.Sprintf("Y%d", i), unpod))
+			}
+			for i := 0; i < 5; i++ {
+				p := newPlug(e, fmt.Sprintf("%02d", 10+i), fmt.Sprintf("S%d", i), pod)
+				p.setDecide(func(request) action { return action{Sleep: 120 * time.Millisecond} })
+				sleepers = append(sleepers, p)
+			}
+			all := append(append([]*plug{}, ups...), sleepers...)
+			for _, p := range all {
+				if err := p.startStub(e.sock); err != nil {
+					e.closeWithin(5 * time.Second)
+					return err
+				}
+			}
+			if err := e.waitSynced(10*time.Second, all...); err != nil {
+				e.closeWithin(5 * time.Second)
+				return err
+			}
+			var mu sync.Mutex
+			byID := map[string]*updCase{}
+			slow := map[string]bool{}
+			e.setUpdateFn(func(_ context.Context, us []*adaptation.ContainerUpdate) ([]*adaptation.ContainerUpdate, error) {
+				items := toItems(us)
+				mu.Lock()
+				var u *updCase
+				if len(items) > 0 {
+					u = byID[items[0].ID]
+				}
+				isSlow := u != nil && slow[items[0].ID]
+				mu.Unlock()
+				if isSlow {
+					time.Sleep(3 * slowT)
+				}
+				if u == nil {
+					return nil, nil
+				}
+				mu.Lock()
+				defer mu.Unlock()
+				u.Seen = append(u.Seen, items)
+				if u.CbErr != "" {
+					return fromItems(u.CbFailed), errors.New(u.CbErr)
+				}
+				return fromItems(u.CbFailed), nil
+			})
+			mk := func(tag string, k int, withErr, isSlow bool) *updCase {
+				caseNo++
+				u := &updCase{Stream: "updates", N: 3000000 + caseNo, Plugin: ups[k].name + " " + tag, Started: true, Updates: []updItem{}, CbFailed: []updItem{}, Seen: [][]updItem{}, RetFailed: []updItem{}}
+				for j := 0; j < 1+rs.Intn(4); j++ {
+					u.Updates = append(u.Updates, updItem{ID: fmt.Sprintf("w%06d.%d", caseNo, j), Shares: int64(2 + rs.Intn(10000))})
+				}
+				u.CbFailed = append(u.CbFailed, u.Updates[rs.Intn(len(u.Updates))])
+				if withErr {
+					u.CbErr = fmt.Sprintf("cb-fail-%d", caseNo)
+				}
+				mu.Lock()
+				byID[u.Updates[0].ID] = u
+				slow[u.Updates[0].ID] = isSlow
+				mu.Unlock()
+				return u
+			}
+			call := func(wg *sync.WaitGroup, k int, u *updCase, delay time.Duration) {
+				wg.Add(1)
+				go func() {
+					defer wg.Done()
+					time.Sleep(delay)
+					t0 := time.Now()
+					failed, uerr := ups[k].st.UpdateContainers(fromItems(u.Updates))
+					mu.Lock()
+					u.Micros = time.Since(t0).Microseconds()
+					u.RetFailed = toItems(failed)
+					if uerr != nil {
+						u.RetErr = uerr.Error()
+					}
+					mu.Unlock()
+				}()
+			}
+			var cases []*updCase
+			// (a) a slow call-back and two updates of other plugins queued behind it
+			{
+				var wg sync.WaitGroup
+				a := mk("slow call-back", 0, sc%2 == 1, true)
+				b := mk("queued behind another plugin's slow call-back", 1, true, false)
+				d := mk("queued behind another plugin's slow call-back", 2, false, false)
+				call(&wg, 0, a, 0)
+				call(&wg, 1, b, 100*time.Millisecond)
+				call(&wg, 2, d, 100*time.Millisecond)
+				if !groupWithin(&wg, wedgeWait) {
+					c.ImplFail("updates", fmt.Sprintf("updates behind a slow call-back had not returned after %v: the runtime is deadlocked", wedgeWait), map[string]interface{}{"stream": "updates", "scenario": sc})
+					return nil
+				}
+				cases = append(cases, a, b, d)
+			}
+			// (b) updates queued behind a runtime request in flight (five handlers of 120 ms under the adaptation lock)
+			{
+				var wg sync.WaitGroup
+				wg.Add(1)
+				go func() {
+					defer wg.Done()
+					e.fire(mkRequest(900000+sc, api.Event_RUN_POD_SANDBOX))
+				}()
+				a := mk("queued behind a request in flight", 0, false, false)
+				b := mk("queued behind a request in flight", 1, true, false)
+				call(&wg, 0, a, 40*time.Millisecond)
+				call(&wg, 1, b, 40*time.Millisecond)
+				if !groupWithin(&wg, wedgeWait) {
+					c.ImplFail("updates", fmt.Sprintf("a request in flight together with unsolicited updates: neither had returned after %v: the runtime is deadlocked", wedgeWait), map[string]interface{}{"stream": "updates", "scenario": sc})
+					return nil
+				}
+				cases = append(cases, a, b)
+			}
+			for _, u := range cases {
+				sh.Add(updCaseTerm(u), u)
+				if why := updOracle(u); why != "" {
+					c.ImplFail("updates", why+" ("+u.Plugin+"; the update stayed in the runtime for "+fmt.Sprint(time.Duration(u.Micros)*time.Microsecond)+", plugin request time-out "+slowT.String()+")", u)
+				}
+				if time.Duration(u.Micros)*time.Microsecond >= slowT {
+					longWaits++
+				}
+				c.Eval(fmt.Sprintf("slow/%d", u.N), true)
+				c.Count("updates.longer_than_request_timeout.cases", 1)
+			}
+			e.setUpdateFn(nil)
+			for _, p := range all {
+				go p.stop()
+			}
+			e.closeWithin(5 * time.Second)
+		}
+		c.Count("updates.longer_than_request_timeout.actually_longer", longWaits)
+		if longWaits == 0 {
+			c.HarnessError("updates: no update stayed in the runtime longer than the request time-out")
+		}
+		adaptation.SetPluginRequestTimeout(10 * time.Second)
 	}
 
 	rounds := c.Pick(10, 24)
 	perPlugin := c.Pick(40, 100)
 	totalUpd, totalOverlapCB, totalOverlapH, withErr, withFailed, emptyList := 0, 0, 0, 0, 0, 0
-	caseNo := 0
 	for round := 0; round < rounds; round++ {
 		e, err := newEnv(c.Out)
 		if err != nil {
@@ -295,13 +457,13 @@ func driveUpdates(c *hx.Ctx) error {
 			// handlers take a little time so that a call-back running outside the mutex would meet one
 			p.setDecide(func(request) action { return action{Sleep: 150 * time.Microsecond} })
 			if err := p.startStub(e.sock); err != nil {
-				e.close()
+				e.closeWithin(5 * time.Second)
 				return err
 			}
 			plugs = append(plugs, p)
 		}
 		if err := e.waitSynced(10*time.Second, plugs...); err != nil {
-			e.close()
+			e.closeWithin(5 * time.Second)
 			return err
 		}
 
@@ -397,6 +559,7 @@ func driveUpdates(c *hx.Ctx) error {
 		stop := make(chan struct{})
 		var bg sync.WaitGroup
 		var fired atomic.Int32
+		var progress, returned atomic.Int64
 		for g := 0; g < 3; g++ {
 			bg.Add(1)
 			go func(g int) {
@@ -411,6 +574,7 @@ func driveUpdates(c *hx.Ctx) error {
 					rid := 1 + g*100000 + i
 					res := e.fire(mkRequest(rid, allEvents[rr.Intn(len(allEvents))]))
 					fired.Add(1)
+					progress.Add(1)
 					if res.Err != "" {
 						c.HarnessError("updates: background request failed: %s", res.Err)
 						return
@@ -435,16 +599,31 @@ func driveUpdates(c *hx.Ctx) error {
 						u.RetErr = err.Error()
 					}
 					mmu.Unlock()
+					returned.Add(1)
+					progress.Add(1)
 				}
 			}(i)
 		}
-		wg.Wait()
-		close(stop)
-		bg.Wait()
+		allDone := make(chan struct{})
+		go func() {
+			wg.Wait()
+			close(stop)
+			bg.Wait()
+			close(allDone)
+		}()
+		if !waitProgress(allDone, &progress, wedgeWait) {
+			// no update call and no request has returned for 20 s: the runtime is deadlocked; the run is a failing
+			// case, the blocked goroutines and this adaptation are abandoned
+			c.ImplFail("updates", fmt.Sprintf("plugins issuing unsolicited updates concurrently with runtime requests: for %v neither an update call nor a request returned (%d of %d update calls had returned, %d requests completed): the runtime is deadlocked",
+				wedgeWait, returned.Load(), len(scripts), fired.Load()),
+				map[string]interface{}{"stream": "updates", "round": round, "plugins": P, "update_calls_returned": returned.Load(), "update_calls": len(scripts), "requests_completed": fired.Load()})
+			c.Eval(fmt.Sprintf("stalled-round/%d", round), true)
+			return nil
+		}
 		for _, p := range plugs {
 			p.stop()
 		}
-		e.close()
+		e.closeWithin(5 * time.Second)
 
 		if unknown.Load() > 0 {
 			c.ImplFail("updates", fmt.Sprintf("the call-back was handed %d update lists no plugin sent", unknown.Load()), map[string]interface{}{"round": round})
@@ -529,7 +708,6 @@ func driveUpdates(c *hx.Ctx) error {
 	}
 	c.Count("updates.overlap.callback_callback", totalOverlapCB)
 	c.Count("updates.overlap.callback_handler", totalOverlapH)
-	c.Stats.Rule = "updates: per round a fresh Adaptation with 2-6 real stubs, each issuing update lists of 1-5 entries from its own goroutine while three goroutines fire random runtime requests (handlers take 150 us, the call-back 100 us); the call-back answers per script: nothing, a failed sub-list, or an error (with or without a list); every call is one case (content, once, result); the merged begin/end marks of all call-backs and handlers are the schedule cases; un-started stubs: UpdateContainers must return ErrNoService at once."
 	return nil
 }
 
